@@ -7,5 +7,8 @@ Ltac Zify.zify_post_hook ::= Z.to_euclidean_division_equations.
 Ltac split_if :=
   match goal with
   | |- context [if ?c then _ else _] =>
-      let E := fresh "E" in destruct c eqn:E
+      lazymatch c with
+      | context [if _ then _ else _] => fail
+      | _ => let E := fresh "E" in destruct c eqn:E
+      end
   end.
